@@ -23,6 +23,12 @@ def wl_bloom(ctx, rng, case):
         est, rate = rng.choice([(20000, 0.01), (60000, 0.05), (9000, 1e-5), (70000, 0.01), (300000, 0.01)])  # several pages of bits, up to 350 KiB
         m, k = _r.bloom_sizing_simple(est, rate)
         ctx.count("large_bloom_pairs")
+    aligned = case.index % 15 == 7
+    if aligned:
+        # bit arrays whose length is an exact multiple of a power-of-two block size (512 .. 64 KiB): no remainder after the last whole block
+        est, rate, m, k = gen.aligned_geometry(rng, max_len=140000)
+        ctx.count("block_aligned_bloom_pairs")
+        ctx.observe("block_aligned_lengths", (m + 7) // 8, cap=200)
     keys = gen.universe(rng, rng.randint(2, 20))
     hname, hf = gen.pick_hash(rng, keys)
     A = [rng.choice(keys) for _ in range(rng.randint(0, 12))]
@@ -31,7 +37,7 @@ def wl_bloom(ctx, rng, case):
         B = list(A)
         ctx.count("identical_content_operand_pairs")
     disk = (rng.random() < 0.35, rng.random() < 0.35)
-    if case.index % 30 == 5:
+    if case.index % 30 == 5 and not aligned:
         # est_elements given as a non-integral number (the constructor accepts any Number > 0); such filters live in memory only
         from .. import refimpl as _r
         for _ in range(40):
@@ -78,7 +84,7 @@ def wl_bloom(ctx, rng, case):
         feed_bloom(sA, A)
         feed_bloom(sB, B)
         feed_bloom(sAB, A + B)
-        if m > 8 * 30000:
+        if m > 8 * 30000 or aligned:
             bl.dense_fill(rng, [[sA, sAB], [sB, sAB]], m, k)  # large arrays: (nearly) every byte carries a bit in some operand
             ctx.count("large_pairs_filled_densely")
         if rng.random() < 0.2:
@@ -203,6 +209,10 @@ def wl_counting(ctx, rng, case):
     import probables as P
 
     est, rate, m, k = gen.bloom_geometry(rng, max_bits=4000)
+    aligned = case.index % 25 == 9
+    if aligned:
+        est, rate, m, k = gen.aligned_geometry(rng, counting=True)  # a counter array of an exact multiple of 512 (some of 4096) cells
+        ctx.count("block_aligned_counting_pairs")
     keys = gen.universe(rng, rng.randint(2, 16))
     hname, hf = gen.pick_hash(rng, keys)
     # sometimes one large amount per operand: counts beyond the signed 32-bit range but (unless positions coincide) below the counter limit
@@ -219,6 +229,10 @@ def wl_counting(ctx, rng, case):
     apply_stream(sA, A)
     apply_stream(sB, B)
     apply_stream(sAB, A + B)
+    sAA = P.CountingBloomFilter(est, rate, **bl.kw_hash(hf))
+    apply_stream(sAA, A + A)
+    if aligned:
+        bl.dense_fill(rng, [[sA, sAB, sAA, sAA], [sB, sAB]], m, k)
     if rng.random() < 0.2:
         sA = P.CountingBloomFilter.frombytes(bytes(sA), **bl.kw_hash(hf))  # an operand loaded from its own export
         ctx.count("operands_reloaded_before_the_union")
@@ -241,8 +255,6 @@ def wl_counting(ctx, rng, case):
             ctx.check(res.check(key) == sAB.check(key), f"counting {tag} answers differently from the single-stream filter", key=key)
         ctx.count("unions_compared")
     # a filter united with ITSELF equals the filter fed its stream twice
-    sAA = P.CountingBloomFilter(est, rate, **bl.kw_hash(hf))
-    apply_stream(sAA, A + A)
     if not all(c > 0 for c in bl.cells_of(sAA)) and max(bl.cells_of(sAA)) < 2**32 - 1:
         res = sA.union(sA)
         ctx.check(res is not None and bl.cells_of(res) == bl.cells_of(sAA), "counters of a.union(a) differ from the filter fed a's stream twice",
@@ -352,5 +364,6 @@ PROP = Prop(
         Workload("coincident", wl_coincident, quick=120, thorough=20000),
     ],
     assumptions=["unsaturated states only, as the statement says (cases whose combined array is completely set are skipped and counted)"],
-    required=["unions_compared", "joins_compared", "join_argument_with_zero_total_but_nonzero_cells", "aliasing_checks", "identical_content_operand_pairs", "self_unions_compared", "self_joins_compared"],
+    required=["unions_compared", "joins_compared", "join_argument_with_zero_total_but_nonzero_cells", "aliasing_checks", "identical_content_operand_pairs", "self_unions_compared", "self_joins_compared",
+              "block_aligned_bloom_pairs", "block_aligned_counting_pairs"],
 )
